@@ -11,11 +11,13 @@ machine and step count:
   and the same machine up to the log, for one step, for `next`, and for whole runs;
 * `run` is exactly single-stepping to the end.
 Together: {run, step*} × {recording off, on} end in the same results, errors, stack, variables and
-output. `eval` vs `compile`+`run` differs only in *when* the same bytecode is run; that part lives
-in the session layer (C11 `eval_eq_compile_run`) and is validated here by the six-way oracle.
+output.
+* `eval_vs_compile_run` (session layer, Model/Session.lean): starting from an idle interpreter, evaluating a source in
+  one call and compiling it and then running it give the same answer and the same session (Proofs/SessionEval.lean).
 -/
 import XehModel.Proofs.VMSim2
 import XehModel.Props.C02
+import XehModel.Proofs.SessionEval
 
 namespace Xeh.C15
 open Xeh Xeh.Mach
@@ -100,5 +102,15 @@ theorem run_eq_steps_err (n k : Nat) (m mn : Mach) (r : R Unit) (h : C02.stepN n
 example : eraseLog ({ code := [.loadI64 1], log := some [] } : Mach) = eraseLog ({ code := [.loadI64 1], log := none } : Mach) := rfl
 example : (run (fun _ => none) 5 ({ code := [.loadI64 1, .loadI64 2], log := some [] } : Mach)).map (fun r => (eraseLog r.2).ds)
     = some [.int 2, .int 1] := by decide
+
+/-- **evaluating a source in one call = compiling it, then running it**: from an idle interpreter, for every source
+    (whatever it contains, meta blocks included) and every fuel, the same result or error and the same session
+    (identical; up to the bookkeeping fields of the current context when the run fails — see
+    `Session.eval_eq_compile_run`). Together with `erase_run` (recording on/off) and `run_eq_steps` (run = stepping to
+    the end) this covers the six ways of driving a program. -/
+theorem eval_vs_compile_run (fuel : Nat) (toks : List Compile.Tok) (s : Session.Sess) (idle : Session.Idle s)
+    (rest : Session.AtRest s) :
+    Session.EvalR (s.buildSource fuel .eval toks) (Session.compileThenRun fuel toks s) :=
+  Session.eval_eq_compile_run fuel toks s idle rest
 
 end Xeh.C15
